@@ -56,13 +56,14 @@ Proof. exact relative_deferred_hits. Qed.
 Print Assumptions C04_relative_deferred_hits.
 
 (* whole instruction, any mnemonic, any operand position, whatever precedes: the decoded operand
-   is the target modulo 2^16 (SNum: the expression was an inline number, not an address) *)
+   is the target modulo 2^16; where the format takes an inline number instead of an address (emt/trap/spl/
+   mark/xfc) it is the number t reduced to the b-bit field, t itself lying within the field's range *)
 Theorem C04_operand_hits_anywhere : forall m ops addr ws rest i t,
   compile_insn m ops addr = Ok ws -> no_pc_autoinc ops -> nth_error ops i = Some (ORel t) ->
   exists name pre ss post s,
     decode (ws ++ rest) addr = Some (name, pre ++ ss ++ post, List.length ws) /\
     List.length ss = List.length ops /\ nth_error ss i = Some s /\
-    (s = SRel (wrap16 t) \/ s = STarget (wrap16 t) \/ exists n, s = SNum n).
+    (s = SRel (wrap16 t) \/ s = STarget (wrap16 t) \/ exists b, s = SNum (t mod 2 ^ b) /\ - 2 ^ b < t < 2 ^ b).
 Proof. exact operand_hits_anywhere. Qed.
 Print Assumptions C04_operand_hits_anywhere.
 
